@@ -461,6 +461,75 @@ def oracle_containers(ctx: Ctx, n):
 
 # ----------------------------------------------------------------------------- entry points
 
+# H: several tests of one file write the callee of a constructor call with the same text, bound to different objects (a local alias, a local class): what is kept /
+# edited is decided for every call by what ITS callee is in ITS frame
+SAME_CALLEE_SRC = '''from collections import namedtuple
+from dataclasses import dataclass
+
+from inline_snapshot import snapshot
+
+
+@dataclass
+class Point:
+    x: int
+    y: int = 0
+    label: str = ""
+
+
+def make_point(x, y=0, label=""):
+    return Point(x=x, y=y, label=label.strip())
+
+
+def test_%(first)s():
+    P = make_point
+    assert Point(1, 2, "a") == snapshot(P(x=1, y=2, label=" a "))
+
+
+def test_%(second)s():
+    P = Point
+    assert Point(1, 5, "b") == snapshot(P(x=0+1, y=2, label="b"  ""))
+
+
+def test_%(third)s():
+    Pair = namedtuple("Pair", "first,second")
+    assert Pair(1, 2) == snapshot(Pair(first=1, second=2))
+
+
+def test_%(fourth)s():
+    @dataclass
+    class Pair:
+        first: int
+        second: list
+
+    assert Pair(3, [1, 2, 4]) == snapshot(Pair(first=1+2, second=[0+1, 0+2, 3]))
+'''
+SAME_CALLEE_WANT = ['P(x=1, y=2, label=" a ")', 'P(x=0+1, y=5, label="b"  "")', "Pair(first=1, second=2)", "Pair(first=1+2, second=[0+1, 0+2, 4])"]
+
+
+def run_same_callee(names):
+    src = SAME_CALLEE_SRC % dict(zip(("first", "second", "third", "fourth"), names))
+    res = driver.run_inproc({"test_a.py": src}, ("fix",))
+    after = res["files"]["test_a.py"].decode()
+    got = []
+    try:
+        tree = ast.parse(after)
+        calls = sorted((n for n in ast.walk(tree) if isinstance(n, ast.Call) and isinstance(n.func, ast.Name) and n.func.id == "snapshot"), key=lambda n: n.lineno)
+        got = [ast.get_source_segment(after, c.args[0]) for c in calls]
+    except Exception as e:  # noqa
+        got = f"{type(e).__name__}: {e}"
+    return {"got": got, "session_exc": res["session_exc"]}
+
+
+def same_callee(ctx: Ctx):
+    orders = [("1_factory", "2_class", "3_namedtuple", "4_dataclass"), ("2_factory", "1_class", "4_namedtuple", "3_dataclass")]
+    for names, o in zip(orders, pmap(run_same_callee, orders, chunksize=1)):
+        ctx.count(("same-callee", names), True)
+        if o["session_exc"] or o["got"] != SAME_CALLEE_WANT:
+            ctx.report(f"C11 oracle: constructor calls written with the same callee text in several tests: after fix the arguments are {o['got']}, expected {SAME_CALLEE_WANT} "
+                       f"(only the differing argument is edited; session {o['session_exc']})", {"kind": "same-callee", "names": list(names)})
+    ctx.coverage["oracle"]["same_callee_text"] = len(orders)
+
+
 def run(ctx: Ctx):
     ctx.coverage["rule"] = (
         "A: (a,b) integer sequences: exhaustive up to a small length plus random edit pairs; align/add_x of the implementation vs Model/Align.v evaluated in Coq. "
@@ -491,9 +560,14 @@ def run(ctx: Ctx):
     # G: lists / tuples / dict displays / constructor calls nested in each other at any depth vs Model/Nest.v
     from .. import nestassign as na
     na.check_part(ctx, 400 if not ctx.thorough else 5000, "C11", unm_choices=(0, 0, 0, 0.2))
+    same_callee(ctx)
 
 
 def replay(ctx: Ctx, data):
+    if isinstance(data.get("case"), dict) and data["case"].get("kind") == "same-callee":
+        o = run_same_callee(tuple(data["case"]["names"]))
+        print(o)
+        return not o["session_exc"] and o["got"] == SAME_CALLEE_WANT
     if isinstance(data.get("case"), dict) and data["case"].get("kind") == "nest":
         from .. import nestassign as na
         return na.replay_case(data["case"])
